@@ -738,8 +738,11 @@ class Engine:
             if 'static' in j:
                 return OpaqueV('static:' + j['static'], j['static'])
             if 'adt' in j and 'variant' in j:
-                v = EnumV(j['adt'], {j['variant']}, {j['variant']: StructV(j.get('variant_name', 'v'), {})})
+                flds = {}
+                for n, t, x in zip(j.get('names', []), j.get('tys', []), j.get('fields', [])):
+                    flds[n] = self.const_value(st, t, x)
                 inner = strip_ref(ty)
+                v = EnumV(inner or ty or j['adt'], {j['variant']}, {j['variant']: StructV(j.get('variant_name', 'v'), flds)})
                 if inner is not None:
                     root = ('H', 'c%d' % next(_uid))
                     st.store[root] = v
